@@ -36,7 +36,7 @@ def _c02_cases(tier, seed):
     for _ in range(n):
         yield {"lineup": _lineup(rnd), "E": rnd.choice([1, 2, 3]), "N": rnd.choice([5, 12]), "dims": rnd.choice([1, 2, 3]),
                "seed": rnd.randrange(1000), "calls": [rnd.randint(1, 3) for _ in range(rnd.randint(1, 3))],
-               "kind": rnd.choice(["normal", "normal", "extreme"]), "filters": rnd.random() < 0.4}
+               "kind": rnd.choice(["normal", "normal", "extreme", "mutating"]), "filters": rnd.random() < 0.4}
 
 
 def _c02_check(reg, case):
@@ -370,6 +370,12 @@ def _c18_cases(tier, seed):
         ([("halton", 1), ("rseq", 1)], [("set_samplers", [("rseq", 1), ("best", 1)]), ("calibrate", [])]),
         ([("halton", 2), ("halton", 1), ("random", 1)], [("calibrate", []), ("set_scheduler", [("best", 1), ("rseq", 1)]), ("calibrate", [])]),
         ([("random", 1), ("halton", 1)], [("set_samplers", [("random", 1), ("halton", 1), ("rseq", 2)]), ("calibrate", []), ("calibrate", [])]),
+        # a replacement that REPEATS a class not yet in the table, then a further replacement with another new class
+        ([("halton", 1), ("random", 1)], [("set_samplers", [("rseq", 1), ("halton", 1), ("rseq", 2)]), ("calibrate", []),
+                                          ("set_scheduler", [("best", 1), ("random", 1)]), ("calibrate", [])]),
+        ([("random", 2)], [("set_scheduler", [("halton", 1), ("halton", 2), ("random", 1)]), ("calibrate", []),
+                           ("set_samplers", [("rseq", 1), ("rseq", 1), ("best", 1)]), ("calibrate", []),
+                           ("set_samplers", [("halton", 1)]), ("calibrate", [])]),
     ]
     for lu, steps in fixed:
         yield {"lineup": lu, "steps": steps, "seed": 1}
